@@ -1,0 +1,13 @@
+//go:build verif
+
+package templ
+
+import "sync"
+
+// Verification hooks for property C14 (add-only, compiled only with the verif tag).
+
+// VerifC14Pool exposes the bytes.Buffer pool used by the handler and ToGoHTML.
+func VerifC14Pool() *sync.Pool { return &bufferPool }
+
+// VerifC14ID is the once handle's id.
+func (o *OnceHandle) VerifC14ID() int64 { return o.id }
